@@ -181,10 +181,14 @@ Rvalue = collections.namedtuple('Rvalue', 'kind args')
 def parse_rvalue(s):
     s = s.strip()
     # references
+    if s.startswith('&raw const (fake) '):
+        return Rvalue('ref', ('raw const', parse_place(s[len('&raw const (fake) '):])))
     m = re.match(r'&(mut |raw const |raw mut |fake shallow |fake )?', s)
     if s.startswith('&') and not s.startswith('&&'):
         kind = (m.group(1) or '').strip()
         return Rvalue('ref', (kind, parse_place(s[m.end():])))
+    if s.startswith('&raw const (fake) '):
+        return Rvalue('ref', ('raw const', parse_place(s[len('&raw const (fake) '):])))
     if s.startswith('no_retag '):
         return parse_rvalue(s[len('no_retag '):])
     if s.startswith(('copy ', 'move ', 'const ')):
